@@ -216,7 +216,7 @@ def _check(run, replay, work):
     run.extra["max_tokens"] = n_dump
     if not quick:
         # depth beyond the exhaustive bound: random behaviours of up to 8 tokens (property check only)
-        run.tlc("Cst", "MC_Cst.cfg", constants={"MaxTok": 5}, simulate="num=200000", depth=40, seed=run.seed + 1,
+        run.tlc("Cst", "MC_Cst_sim.cfg", constants={"MaxTok": 8}, simulate="num=20000", depth=60, seed=run.seed + 1,
                 workers=NCPU, timeout=3000)
 
     # ---------------- R: replay every enumerated source through the real code ----------------
